@@ -34,6 +34,7 @@ from cryptography.x509.oid import NameOID
 from OpenSSL import crypto
 
 import mitmproxy.ctx
+from mitmproxy import addonmanager
 from mitmproxy import connection
 from mitmproxy.addons import proxyserver as proxyserver_addon
 from mitmproxy.addons import tlsconfig
@@ -373,12 +374,31 @@ def tls_records(stream: bytes):
 _ENVS: dict[str, dict] = {}
 
 
+class _CapturingLogger:
+    """stands in for `mitmproxy.addonmanager.logger`: records what `safecall` reports, then logs it as usual"""
+
+    def __init__(self, orig):
+        self.orig = orig
+        self.errors: list[str] = []
+
+    def error(self, msg, *args, **kwargs):
+        self.errors.append(str(msg))
+        if len(self.errors) > 10000:
+            del self.errors[:5000]
+        self.orig.error(msg, *args, **kwargs)
+
+    def __getattr__(self, name):
+        return getattr(self.orig, name)
+
+
 def tls_env(name: str = "default", prepare=None) -> dict:
     """one TlsConfig addon with its own Master/options and confdir `<scratch>/<name>`.  `prepare(confdir)` may
     pre-populate the directory (custom CA); otherwise mitmproxy generates its CA there, once.  Call `activate(env)`
     before driving a case so that the process-global `mitmproxy.ctx` points at this environment."""
     if name in _ENVS:
         return _ENVS[name]
+    if not isinstance(addonmanager.logger, _CapturingLogger):
+        addonmanager.logger = _CapturingLogger(addonmanager.logger)
     confdir = os.path.join(scratch(), "conf-" + name)
     os.makedirs(confdir, exist_ok=True)
     if prepare:
@@ -620,20 +640,16 @@ class Rig:
     def _hook(self, cmd):
         name = cmd.name
         (data,) = cmd.args()
-        try:
-            if isinstance(cmd, ptls.TlsClienthelloHook):
-                self.tc.tls_clienthello(data)
-            elif isinstance(cmd, ptls.TlsStartClientHook):
-                self.tc.tls_start_client(data)
-                if data.ssl_conn is not None:
-                    c = data.ssl_conn.get_certificate()
-                    self.presented_cert = c.to_cryptography() if c is not None else None
-            elif isinstance(cmd, ptls.TlsStartServerHook):
-                self.tc.tls_start_server(data)
-        except KeyboardInterrupt:
-            raise
-        except Exception as e:  # AddonManager logs addon errors and the hook completes
-            self.addon_errors.append("%s in %s: %s" % (type(e).__name__, name, str(e)[:300]))
+        # the real AddonManager: every addon of the chain, exceptions caught by `safecall` and only logged
+        # ("Addon error: ..."), after which the hook completes like any other
+        cap = addonmanager.logger
+        n0 = len(cap.errors)
+        self.env["tctx"].master.addons.trigger(cmd)
+        for msg in cap.errors[n0:]:
+            self.addon_errors.append("%s in %s" % (msg[:300], name))
+        if isinstance(cmd, ptls.TlsStartClientHook) and data.ssl_conn is not None:
+            c = data.ssl_conn.get_certificate()
+            self.presented_cert = c.to_cryptography() if c is not None else None
         snap = None
         if isinstance(cmd, (ptls.TlsFailedClientHook, ptls.TlsFailedServerHook, ptls.TlsEstablishedClientHook, ptls.TlsEstablishedServerHook)):
             snap = {"error": data.conn.error, "established": data.conn.tls_established}
